@@ -582,7 +582,9 @@ of fuel is a distinct outcome (`fuel`), never confused with a verdict. -/
 def run (inp : List Char) : List Emit × Term := runFrom (3 * inp.length + 8) [.init] inp
 
 /-- The items `ParseIterator` yields: the events, then `Some(Err(_))` if the stream ended in an error. -/
-def events (inp : List Char) : List Event × Term := ((run inp).1.map (·.ev), (run inp).2)
+def eventsOf (r : List Emit × Term) : List Event × Term := (r.1.map (·.ev), r.2)
+
+def events (inp : List Char) : List Event × Term := eventsOf (run inp)
 
 /-! ## `ValueMaterializer`: events → `Value` -/
 
@@ -749,7 +751,9 @@ def materialize : MSt → List Event → Term → Option Value
     | (m', none) => materialize m' es t
 
 /-- `parse_recognize::<Value>(text, false)`. -/
-def parseValue (inp : List Char) : Option Value := materialize {} (events inp).1 (events inp).2
+def parseOf (r : List Emit × Term) : Option Value := materialize {} (eventsOf r).1 (eventsOf r).2
+
+def parseValue (inp : List Char) : Option Value := parseOf (run inp)
 
 /-! ## `ValueValidator` (comparator/mod.rs) -/
 
@@ -1025,10 +1029,12 @@ def cmpLoop : Nat → VV → VV → List SItem → List SItem → Option Bool
 def incrementalCompare (a b : List SItem) : Option Bool := cmpLoop (a.length + b.length + 1) {} {} a b
 
 /-- `compare_recon_values`. -/
-def compareRecon (a b : List Char) : Bool :=
-  match incrementalCompare (stream (events a)) (stream (events b)) with
+def compareOf (ra rb : List Emit × Term) (same : Bool) : Bool :=
+  match incrementalCompare (stream (eventsOf ra)) (stream (eventsOf rb)) with
   | some r => r
-  | none => a == b
+  | none => same
+
+def compareRecon (a b : List Char) : Bool := compareOf (run a) (run b) (a == b)
 
 /-! ## `recon_hash` -/
 
@@ -1151,8 +1157,10 @@ def hashEmits : List Bool → List Emit → List HTok
     | _ => evCalls e.ev ++ hashEmits cb es
 
 /-- `recon_hash(text, hasher)`: the calls it makes; if parsing failed the raw string is hashed as well. -/
-def hashCalls (inp : List Char) : List HTok :=
-  hashEmits [] (run inp).1 ++ (if (run inp).2 = .fin then [] else strCalls inp)
+def hashOf (r : List Emit × Term) (inp : List Char) : List HTok :=
+  hashEmits [] r.1 ++ (if r.2 = .fin then [] else strCalls inp)
+
+def hashCalls (inp : List Char) : List HTok := hashOf (run inp) inp
 
 /-! ## Specification side -/
 
